@@ -114,6 +114,28 @@ def run(rng, tier, model_ok):
         add("%s %s to %s" % (xs, a, b), si_oracle(x, na, nb))
         add("%s %s to %s" % (xs, b, a), si_oracle(x, nb, na))
         stats["every_unit_powers"] = stats.get("every_unit_powers", 0) + 2
+    # ratios and products of different units of one dimension: the bases cancel, the factors and prefixes must not
+    groups = [["m", "ft", "in", "mi", "yd"], ["s", "min", "hr", "dy"], ["J", "btu", "eV"], ["kg", "lb", "oz"], ["l", "gal", "tsp"], ["N"], ["W"]]
+    gw = sorted({w for g in groups for w in g})
+    gread = read_units(V, gw)
+    pfx = ["", "", "k", "m", "M"]
+    for _ in range(80 if tier == "quick" else 1500):
+        g = rng.choice([g for g in groups if len(g) >= 2])
+        u1, u2, u3, u4 = (rng.choice(pfx) + rng.choice(g) for _ in range(4))
+        wr = read_units(V, [u1, u2, u3, u4, g[0]])
+        if any(not wr.get(w) or len(wr[w]) != 1 or V.dims(wr[w]) != V.dims(wr[g[0]]) for w in (u1, u2, u3, u4)):
+            continue                      # prefix + name happens to spell another word (min, kin, ktsp): C05's subject
+        a, b = "%s/%s" % (u1, u2), "%s/%s" % (u3, u4)
+        if rng.random() < 0.3:
+            extra_u = rng.choice(["m", "s", "kg"])
+            a, b = a + "*" + extra_u, b + "*" + extra_u
+        rr = read_units(V, [a, b])
+        na, nb = rr.get(a), rr.get(b)
+        if not na or not nb:
+            continue
+        x = Fraction(rng.randint(1, 99), rng.choice([1, 10]))
+        add("%s %s to %s" % (gens_dec(x), a, b), si_oracle(x, na, nb))
+        stats["ratios"] = stats.get("ratios", 0) + 1
     # prefixes: exactly the power of ten
     for e, word, name in prefix_words:
         na, nb = parsed.get(word), parsed.get(name)
